@@ -387,6 +387,12 @@ def write_evidence(prop, tier, seed, P, results, violations, known, wall, truste
             if rec is not None and not ok and rec["item"] not in failed_items:
                 ok = True  # it failed, but on a clause that carries another property
             item = rec["item"] if rec is not None else short   # lemmas / spec items are keyed by their own name
+            if rec is None and not ok:
+                # a lemma / spec item that fails: it bears on this property only if the failing site carries it (a stage lemma of another
+                # property's recorded finding is neither an obligation of this property nor claimed here)
+                fl = [x for x in r["failures"] if x["site_item"] == item]
+                if fl and not any(prop in x["props"] for x in fl):
+                    continue
             if not ok and item in known_items and item not in viol_items:
                 # fails only on a listed known finding: reported (KNOWN-FINDING line, known_findings_matched,
                 # known_finding_obligations) and NOT counted among the obligations this run claims as proved
